@@ -485,47 +485,60 @@ func (idx *Index) Cleave(cleaveLabel uint64, toCleave []uint64, mutInfo dvid.Mut
 type SupervoxelChanges map[uint64]map[dvid.IZYXString]int32
 
 // ModifyBlocks modifies the receiver Index to incorporate supervoxel changes among the given blocks.
+// Only changes of supervoxels already in the Index (or of the label itself for a new Index) are applied.
 func (idx *Index) ModifyBlocks(label uint64, sc SupervoxelChanges) error {
 	if idx == nil {
 		return fmt.Errorf("cannot pass nil index into ModifyBlocks()")
-	}
-	if idx.Blocks == nil {
-		idx.Blocks = make(map[uint64]*proto.SVCount)
 	}
 	labelSupervoxels := idx.GetSupervoxels()
 	if len(labelSupervoxels) == 0 {
 		labelSupervoxels[label] = struct{}{} // A new index has at least its original label
 	}
+	own := make(SupervoxelChanges, len(sc))
 	for supervoxel, blockChanges := range sc {
-		_, inSet := labelSupervoxels[supervoxel]
-		if inSet {
-			for izyxStr, delta := range blockChanges {
-				zyx, err := IZYXStringToBlockIndex(izyxStr)
-				if err != nil {
-					return err
+		if _, inSet := labelSupervoxels[supervoxel]; inSet {
+			own[supervoxel] = blockChanges
+		}
+	}
+	return idx.ApplyChanges(own)
+}
+
+// ApplyChanges modifies the receiver Index to incorporate all the given supervoxel changes, which
+// the caller has determined to belong to the Index's label.
+func (idx *Index) ApplyChanges(sc SupervoxelChanges) error {
+	if idx == nil {
+		return fmt.Errorf("cannot pass nil index into ApplyChanges()")
+	}
+	if idx.Blocks == nil {
+		idx.Blocks = make(map[uint64]*proto.SVCount)
+	}
+	for supervoxel, blockChanges := range sc {
+		for izyxStr, delta := range blockChanges {
+			zyx, err := IZYXStringToBlockIndex(izyxStr)
+			if err != nil {
+				return err
+			}
+			svc, found := idx.Blocks[zyx]
+			if found && svc != nil {
+				oldsz := svc.Counts[supervoxel]
+				newsz := oldsz
+				if delta < 0 && uint32(-delta) > oldsz {
+					return fmt.Errorf("bad attempt to subtract %d from %d voxels for supervoxel %d in block %s", -delta, oldsz, supervoxel, izyxStr)
 				}
-				svc, found := idx.Blocks[zyx]
-				if found && svc != nil {
-					oldsz := svc.Counts[supervoxel]
-					newsz := oldsz
-					if delta < 0 && uint32(-delta) > oldsz {
-						return fmt.Errorf("bad attempt to subtract %d from %d voxels for supervoxel %d in block %s", -delta, oldsz, supervoxel, izyxStr)
-					}
-					newsz = uint32(int64(oldsz) + int64(delta))
-					if newsz == 0 {
-						delete(svc.Counts, supervoxel)
-					} else {
-						svc.Counts[supervoxel] = newsz
-					}
+				newsz = uint32(int64(oldsz) + int64(delta))
+				if newsz == 0 {
+					delete(svc.Counts, supervoxel)
 				} else {
-					svc = new(proto.SVCount)
-					svc.Counts = make(map[uint64]uint32)
-					if delta < 0 {
-						return fmt.Errorf("bad attempt to subtract %d voxels from supervoxel %d in block %s when it wasn't previously in that block", -delta, supervoxel, izyxStr)
-					}
-					svc.Counts[supervoxel] = uint32(delta)
-					idx.Blocks[zyx] = svc
+					svc.Counts[supervoxel] = newsz
 				}
+			} else {
+				svc = new(proto.SVCount)
+				svc.Counts = make(map[uint64]uint32)
+				if delta < 0 {
+					return fmt.Errorf("bad attempt to subtract %d voxels from supervoxel %d in block %s when it wasn't previously in that block", -delta, supervoxel, izyxStr)
+				}
+				svc.Counts[supervoxel] = uint32(delta)
+				idx.Blocks[zyx] = svc
 			}
 		}
 	}
